@@ -96,13 +96,34 @@ pub struct SimParserStream {
 }
 
 impl SimParserStream {
+    /// The parser of world A: what `Cucumber::filter_run` would hand to the runner, i.e. with the
+    /// scenarios of the plan's filtered rules removed (the rules stay, empty).
     pub fn new(core: &Rc<SimCore>, plan: &Plan) -> Result<Self, String> {
+        Self::build(core, plan, true)
+    }
+
+    /// The parser of world P: unfiltered, `Cucumber::filter_run` gets the filter as a closure.
+    pub fn new_unfiltered(core: &Rc<SimCore>, plan: &Plan) -> Result<Self, String> {
+        Self::build(core, plan, false)
+    }
+
+    fn build(core: &Rc<SimCore>, plan: &Plan, apply_filter: bool) -> Result<Self, String> {
         let mut items = Vec::new();
         for it in &plan.items {
             let v = match &it.kind {
                 ParserItemKind::Feature(i) => {
                     let spec = plan.features.get(*i).ok_or("harness: bad feature index")?;
-                    Ok(build_feature(spec)?)
+                    let mut f = build_feature(spec)?;
+                    if apply_filter {
+                        for (fi, ri) in &plan.filtered_rules {
+                            if fi == i {
+                                if let Some(r) = f.rules.get_mut(*ri) {
+                                    r.scenarios.clear();
+                                }
+                            }
+                        }
+                    }
+                    Ok(f)
                 }
                 k => Err(make_error(k)),
             };
